@@ -316,7 +316,7 @@ func (p *parent) runJob(slot string, wp **workerProc, js jobSpec) {
 			continue
 		}
 		cse, ent := int64(d.ann[shmCase]), int(d.ann[shmEntry])
-		if d.reason == "out-of-memory" {
+		if d.reason == "out-of-memory" && d.oomBlock < workerVMemKiB<<10 { // a block larger than the limit itself fails in any state
 			// whether an allocation fits under the address-space limit depends on what the worker's heap
 			// holds from earlier cases: the verdict is what happens alone in a fresh process
 			d2, res := p.confirmHang(slot, f, cse, ent, d.ann[shmLen])
@@ -464,6 +464,21 @@ func main() {
 	}
 	nw := min(runtime.NumCPU(), 16)
 	var next atomic.Int64
+	current := make([]atomic.Value, nw)
+	if os.Getenv("VERIF_C05_PROGRESS") != "" { // debugging aid: what the slots are doing, every 10 s on stderr
+		go func() {
+			for {
+				time.Sleep(10 * time.Second)
+				line := fmt.Sprintf("progress %.0fs: job %d of %d;", time.Since(start).Seconds(), next.Load(), len(jobs))
+				for i := range current {
+					if v, _ := current[i].Load().(string); v != "" {
+						line += " " + v
+					}
+				}
+				fmt.Fprintln(os.Stderr, line)
+			}
+		}()
+	}
 	var wg sync.WaitGroup
 	for i := 0; i < nw; i++ {
 		wg.Add(1)
@@ -489,7 +504,9 @@ func main() {
 					continue
 				}
 				t := time.Now()
+				current[id].Store(fmt.Sprintf("[%s %s %d]", slot, js.fam.name, js.lo))
 				p.runJob(slot, &w, js)
+				current[id].Store("")
 				p.mu.Lock()
 				p.stats[js.fam.name].wall += time.Since(t)
 				p.mu.Unlock()
@@ -617,8 +634,9 @@ func main() {
 			"alloc: TotalAlloc delta <= 64*len(packet)+65536, measured around batches of <=96 evaluations and again around every single evaluation of a batch that exceeds the smallest budget in it",
 	}
 	run.Finish(cov, []string{
-		"bounded-exhaustive, not exhaustive over all byte strings up to 10 MiB: complete for length <= 2, complete over the stated alphabets up to length 5 (7 in thorough), single (thorough: also pairs of) byte mutations of the stated baselines, and the stated parameterised hostile families",
+		"bounded-exhaustive, not exhaustive over all byte strings up to 10 MiB: complete for length <= 2, complete over the stated alphabets up to length 5 (8 in thorough), single (thorough: also pairs of) byte mutations of the stated baselines, and the stated parameterised hostile families",
 		"the termination oracle is a wall-clock backstop (the code under test is not instrumented, so there is no step counter): 10 s + 3 s/MiB for work that takes microseconds to about a second, and a hit counts only if the same evaluation, re-run alone in a fresh worker with six times the limit, does not return either",
+		"the allocation site in an alloc-amplification signature comes from a profiled re-run (runtime.MemProfileRate=1); after three such runs in a row named the same site for an entry, a worker reuses it for that entry",
 		"an allocation is counted when runtime.MemStats.TotalAlloc grows during the call in a GOMAXPROCS=1 worker whose logger is off; allocations of the harness inside the measured region (context, request struct, response classification) are part of the 64 KiB constant",
 		"out-of-memory is judged under an address-space limit of 4 GiB per worker; a machine with less memory dies earlier, one without limit later or not at all",
 		"the server seam is driven at Protocol.Invoke / InvokeTimeout with exactly the byte slices tcphandler.go (complete frame, consistent length prefix) and udphandler.go (datagram as received) pass; sockets are not involved",
